@@ -389,3 +389,12 @@ Theorem C04_interruption_keeps_cause :
                out iev' = Some (Fail (EInterrupt, [cause])) /\ (cbs iev = None -> cbs iev' = None).
 Proof. exact interruption_keeps_cause. Qed.
 Print Assumptions C04_interruption_keeps_cause.
+
+(* run() stays inside the reachable states as long as every step it takes is clean *)
+Theorem C04_reach_run :
+  forall codes fuel u s,
+  reach codes s ->
+  (forall s1, run_prelude u s = inr s1 -> steps_clean fuel fuel codes s1) ->
+  reach codes (fst (run fuel codes u s)).
+Proof. exact reach_run. Qed.
+Print Assumptions C04_reach_run.
